@@ -23,6 +23,7 @@ MUTANTS = [
     ("no-flip-reset", "src/cmb_random.c", "    flip_bits = 0u;\n    flip_bitpos = 0u;\n    splitmix_initialize(seed);", "    splitmix_initialize(seed);"),
     ("no-counter-reset", "src/cimba.c", "    cmg_next_trial_idx = 0u;\n    cmg_experiment_arr", "    cmg_experiment_arr"),
     ("early-return-same-seed", "src/cmb_random.c", "    initial_seed = seed;\n", "    if (seed == initial_seed) {\n        return;\n    }\n    initial_seed = seed;\n"),
+    ("gamma-key-epsilon", "src/cmb_random.c", "    if (shape != a_prev) {", "    if (fabs(shape - a_prev) > 2.220446049250313e-16) {"),
     ("no-seed-store", "src/cmb_random.c", "    splitmix_initialize(seed);\n", "    splitmix_state ^= seed;\n"),
     # harmless rewrites: must stay green
     ("HARMLESS-not-lt", "src/cimba.c", "if (idx >= cmg_total_trials) {", "if (!(idx < cmg_total_trials)) {"),
